@@ -150,7 +150,7 @@ def ops_model(ck, rnd, circuits):
 
 
 def judge(ck, recs, meta, pids):
-    r = ck.tlc_batch('LogicSimT', 'LogicSimT', traces=recs, label='T:LogicSimT', per_shard=60, timeout=1700)
+    r = ck.tlc_batch('LogicSimT', 'LogicSimT', traces=recs, label='T:LogicSimT', per_shard=60, timeout=3400)
     ck.require_clean(r)
     ck.traces += len(recs)
     ck.evaluations += sum(x['lanes'] for x in recs)
@@ -202,7 +202,7 @@ def main(tier=None, replay=None):
     ck.require_clean(r, allow_violation=False)
     if r.rc != 0:
         raise MachineryError('LogicLaws: the specification of the algebra is inconsistent: %s' % r.invariant_violations)
-    circuits = make_circuits(ck, rnd, ck.pick(150, 1500)) + tlc_circuits(ck, rnd, ck.pick(160, 20000))
+    circuits = make_circuits(ck, rnd, ck.pick(150, 1000)) + tlc_circuits(ck, rnd, ck.pick(160, 4000))
     recs, meta = records(ck, rnd, circuits, (2,))
     judge(ck, recs, meta, (PID,))
     ops_model(ck, rnd, circuits)
